@@ -34,10 +34,16 @@ enum verif_exc {
 
 extern int verif_thrown;
 
+/* exceptional postcondition checked at every throw site; kernels may define a sharper one
+ * (in terms of ghost specification state) before including this header */
+#ifndef VERIF_THROW_OK
+#define VERIF_THROW_OK(kind) ((((unsigned)(VERIF_ALLOWED)) >> (kind)) & 1u)
+#endif
+
 #ifdef VERIF_CBMC
 #define VERIF_THROW(kind, site)                                                      \
   do {                                                                               \
-    __CPROVER_assert((((unsigned)(VERIF_ALLOWED)) >> (kind)) & 1u,                   \
+    __CPROVER_assert(VERIF_THROW_OK(kind),                                           \
                      "throw-kind " #kind " allowed here, thrown at " site);         \
     __CPROVER_assume(0);                                                             \
   } while (0)
